@@ -40,15 +40,16 @@ def engage(w, cube, poolsize):
     cube.poolsize = poolsize
     if w.get("engage") == "threshold" and w["N"] >= 1 and cubes.scaffold_size(w) > 2:
         mod = catii.ccubes if w["cube"] == "ccube" else catii.xcubes
-        old = mod.BIG_REGIONS
-        mod.BIG_REGIONS = 1
-        try:
-            probe = cubes.build_cube(w)
-        finally:
-            mod.BIG_REGIONS = old
-        if probe.parallel:
-            probe.poolsize = poolsize
-            return probe, "threshold"
+        if hasattr(mod, "BIG_REGIONS"):  # the seam may be refactored away; the flag below always works
+            old = mod.BIG_REGIONS
+            mod.BIG_REGIONS = 1
+            try:
+                probe = cubes.build_cube(w)
+            finally:
+                mod.BIG_REGIONS = old
+            if getattr(probe, "parallel", False):
+                probe.poolsize = poolsize
+                return probe, "threshold"
     cube.parallel = True
     return cube, "flag"
 
